@@ -181,6 +181,13 @@ class State(object):
             t = tobool(t)
         self.pc.append(t)
 
+    def define(self, t):
+        """an unconditional definitional fact about fresh symbols (not wrapped by enclosing short-circuit guards)"""
+        self.pc.append(t)
+        d = set(self.env.get("$defs") or ())
+        d.add(t.get_id())
+        self.env["$defs"] = d
+
 
 class SpecCtx(object):
     """what contract clauses see as `S`"""
@@ -238,14 +245,12 @@ def split_goal(g, depth=0):
         if len(parts) > 1:
             return [z3.Implies(a, p) for p in parts]
         return [g]
-    if z3.is_quantifier(g) and g.is_forall() and g.num_patterns() == 0:
+    if z3.is_quantifier(g) and g.is_forall():
+        # a universally quantified *goal* is proved for fresh constants (skolemisation of the negated goal)
         n = g.num_vars()
-        vs = [z3.Const(g.var_name(i) + "!s", g.var_sort(i)) for i in range(n)]
+        vs = [z3.Const(fresh_name(g.var_name(i) + "!sk"), g.var_sort(i)) for i in range(n)]
         body = z3.substitute_vars(g.body(), *reversed(vs))
-        parts = split_goal(body, depth + 1)
-        if len(parts) > 1:
-            return [z3.ForAll(vs, p) for p in parts]
-        return [g]
+        return split_goal(body, depth + 1)
     return [g]
 
 
@@ -711,7 +716,8 @@ class Exec(object):
                     return
                 if tgt.attr == "children":
                     lv = v if isinstance(v, VList) else lift(v)
-                    st.heap.set_children(obj, lv)
+                    for d in st.heap.set_children(obj, lv):
+                        st.define(d)
                     return
                 raise Unsupported("assignment to attribute %s of a tree" % tgt.attr)
             if isinstance(obj, VRec):
@@ -795,8 +801,9 @@ class Exec(object):
         finally:
             new = st.pc[n0 + 1:]
             del st.pc[n0:]
+            defs = st.env.get("$defs") or ()
             for t in new:
-                st.pc.append(z3.Implies(ct, t))
+                st.pc.append(t if t.get_id() in defs else z3.Implies(ct, t))
         return v
 
     def ev(self, e, st):
@@ -999,9 +1006,9 @@ class Exec(object):
             return memo[key]
         mf, axs = piece_axioms(t, z3.simplify(l), z3.simplify(ln))
         for a in axs:
-            st.assume(a)
+            st.define(a)
         m = z3.String(fresh_name("sm"))
-        st.assume(m == mf)
+        st.define(m == mf)
         st.env["$pieces"] = dict(memo)
         st.env["$pieces"][key] = m
         return m
@@ -1627,7 +1634,7 @@ class Exec(object):
                 self.safety(st, node, IS_INT_LIT(s), "ValueError", "int_literal")
                 self.trusted.add("int(str): uninterpreted py_str_to_int / py_is_int_literal; axiom: a string for which "
                                  "isdigit() holds and int() succeeds denotes a non-negative integer")
-                st.assume(z3.Implies(z3.And(IS_DIGIT(s), IS_INT_LIT(s)), STR_TO_INT(s) >= 0))
+                st.define(z3.Implies(z3.And(IS_DIGIT(s), IS_INT_LIT(s)), STR_TO_INT(s) >= 0))
                 return VInt(STR_TO_INT(s))
             raise Unsupported("int() of %r" % (v,))
         if name == "sum":
@@ -1745,7 +1752,7 @@ class Exec(object):
             # named by fresh constants (small terms for the string solver), tied to the spec functions
             pre = z3.String(fresh_name("pre"))
             suf = z3.String(fresh_name("suf"))
-            st.assume(z3.And(pre == pre_f, suf == suf_f))
+            st.define(z3.And(pre == pre_f, suf == suf_f))
             clean = suf if meth == "rfind" else pre
             st.assume(z3.Or(
                 z3.And(r == -1, z3.Not(z3.Contains(t, ct))),
@@ -1774,7 +1781,7 @@ class Exec(object):
             return lst
         if meth == "isdigit":
             self.trusted.add("str.isdigit: uninterpreted predicate, axiom isdigit(s) -> len(s) > 0")
-            st.assume(z3.Implies(IS_DIGIT(t), z3.Length(t) > 0))
+            st.define(z3.Implies(IS_DIGIT(t), z3.Length(t) > 0))
             return VBool(IS_DIGIT(t))
         if meth == "lower":
             self.trusted.add("str.lower: uninterpreted function")
@@ -1973,9 +1980,10 @@ def slice_bounds(n, lo, hi):
 
 
 def str_slice(t, lo, hi):
-    """the term the executor builds for t[lo:hi] on strings (without split-point rewriting)"""
+    """the spec-level name of t[lo:hi] on strings: the piece function the executor ties its slices to
+    (py_piece_m(t, start, length) with CPython's normalisation of lo/hi)"""
     l, h, ln = slice_bounds(z3.Length(t), lo, hi)
-    return z3.SubString(t, l, ln)
+    return PIECE_M(t, z3.simplify(l), z3.simplify(ln))
 
 
 def _no_elem(i):
